@@ -52,7 +52,9 @@ def gen_family(rng: random.Random, n: int, T: int, u: int = 1) -> List[Dict[str,
 
 def family_case(rng: random.Random, n: int, T: int, u: int = 1) -> Dict[str, Any]:
     fam = gen_family(rng, n, T, u)
-    base = rng.choice([0, 1000, 10 ** 6])
+    # with fractional durations also a present-day epoch offset: float64 resolves 0.25 us there, so anything that adds a fractional
+    # duration to an unshifted timestamp is rounded
+    base = rng.choice([0, 1000, 10 ** 6]) if u == 1 else rng.choice([1000, 1_700_000_000_000_000])
     pid = 4000
     events = []
     for k, s in enumerate(fam):
@@ -91,7 +93,7 @@ class C03(Prop):
         if k % 2 == 0:
             n = rng.randint(3, 14 if tier == "thorough" else 10)
             # every fifth family: whole-microsecond starts with durations in quarter microseconds (no rounding happens on such files)
-            case = family_case(rng, n, rng.randint(3, 9), u=4 if k % 10 == 8 else 1)
+            case = family_case(rng, n, rng.randint(3, 9), u=(4 if k % 20 == 8 else 8) if k % 10 == 8 else 1)
             case["kind"] = "family"
             return case
         cfg = gen.GenCfg(n_ranks=rng.choice([1, 1, 2]), n_steps=rng.choice([0, 1, 2]), p_launch=rng.choice([0.2, 0.5]), p_sync=rng.choice([0, 0.1]),
@@ -99,6 +101,8 @@ class C03(Prop):
                          n_extra_threads=rng.choice([0, 0, 1, 2]), base=rng.choice([0, 1000]), extras=rng.random() < 0.5,
                          streams=rng.choice([(7,), (7, 9)]))
         cfg.same_tid_process = cfg.n_extra_threads >= 1 and rng.random() < 0.5     # two processes whose threads share a tid
+        if rng.random() < 0.4:          # an autograd thread whose top-level operators the call graph re-attaches beneath the main thread's annotation
+            cfg.bwd_thread, cfg.n_steps, cfg.bwd_annotation = True, rng.choice([1, 2]), rng.random() < 0.5
         case = case_from_cfg(rng, cfg)
         case["kind"] = "program"
         return case
